@@ -84,6 +84,12 @@ func absParam(p spec.Parameter) obj {
 		if p.Items.MinLength != nil {
 			o["itemsMinLength"] = *p.Items.MinLength
 		}
+		if p.Items.Minimum != nil {
+			o["itemsMinimum"] = int64(*p.Items.Minimum)
+		}
+		if p.Items.Maximum != nil {
+			o["itemsMaximum"] = int64(*p.Items.Maximum)
+		}
 	}
 	return o
 }
